@@ -89,6 +89,9 @@ func funcLitToLambdaExpr(v *ast.FuncLit, ret *ast.Expr) {
 	}
 	var lsh []*ast.Ident
 	for _, p := range v.Type.Params.List {
+		if _, variadic := p.Type.(*ast.Ellipsis); variadic {
+			return // a lambda parameter cannot be variadic
+		}
 		if p.Names == nil {
 			lsh = append(lsh, ast.NewIdent("_"))
 		} else {
